@@ -149,6 +149,20 @@ func (p *Prog) CalleesAt(c ssa.CallInstruction) []*ssa.Function {
 			out = append(out, e.Callee.Func)
 		}
 	}
+	// thorough tier: second, independent resolution — class-hierarchy analysis restricted to receiver
+	// types declared in the repository — is united with the VTA result for interface calls, so that
+	// every reachability verdict also holds on the coarser graph.
+	if p.WithCHA && c.Common().IsInvoke() {
+		if cn := p.CHA().Nodes[c.Parent()]; cn != nil {
+			for _, e := range cn.Out {
+				if e.Site == c && !seen[e.Callee.Func] && p.InRepo(e.Callee.Func) {
+					seen[e.Callee.Func] = true
+					out = append(out, e.Callee.Func)
+					p.CHAExtra++
+				}
+			}
+		}
+	}
 	return out
 }
 
